@@ -6,6 +6,14 @@ Mutation testing (scratch worktree, VERIF_REPO=<dir>, quick tier, seed 1; green 
                            read through index (a,b) without a temp index)                 green -> VIOLATION
   summarize-select-noclear summarize.go Select(nil) does not clear the residual selection   green -> VIOLATION
   extend-conflict-sticky   extend.go Select: a conflict with fixed values is never reset    green -> VIOLATION
+  union-select-clear       (seeded/C23-union-select-clear, independently written) union.go Select(nil) no
+                           longer restores the per-source getters a conflicting Select set to `nothing`:
+                           after Select(value for a column one source lacks) + Select(nil) the rows of
+                           that source are gone                                           green -> VIOLATION
+                           (reached by Gen.diffSetOp: union/intersect/minus of sources with different
+                           columns as the whole query, read in index order without a temp index, Select
+                           with values for ALL columns, clears followed by full scans both ways; Lookups
+                           are also followed by full scans)
   lookup-nofilter          where.go Lookup returns the source row without applying the where
   rewind-clears-select     where.go Rewind resets the index selection of the last Select
   ti-rewind-clears-select  tempindex.go Rewind clears the selection
